@@ -287,22 +287,21 @@ func (l *ledger) node(s *spec, v value.Value, how string) {
 func (e *live) changed(full bool) (string, map[string]interface{}) {
 	var what string
 	var det map[string]interface{}
-	if e.fpOK {
-		if h, p := fingerprint(e.v); p == nil && h == e.fp {
-			if !full {
-				return "", nil
-			}
-		} else {
-			full = true
-		}
-	}
 	put := func(k string, v interface{}) {
 		if det == nil {
 			det = map[string]interface{}{}
 		}
 		det[k] = v
 	}
-	if full && e.wire != nil {
+	var h uint64
+	moved := false
+	if e.fpOK {
+		var p interface{}
+		if h, p = fingerprint(e.v); p == nil && h != e.fp {
+			moved = true
+		}
+	}
+	if (full || moved) && e.wire != nil {
 		w, p := encodeCatch(e.v)
 		switch {
 		case p != nil:
@@ -316,22 +315,22 @@ func (e *live) changed(full bool) (string, map[string]interface{}) {
 			e.wire = w
 		}
 	}
-	if e.fpOK {
-		h, p := fingerprint(e.v)
-		if p == nil && h != e.fp {
-			if what == "" {
-				what = "its fields changed (same encoding)"
-			}
-			put("fingerprint_at_creation", fmt.Sprintf("%016x", e.fp))
-			put("fingerprint_now", fmt.Sprintf("%016x", h))
-			e.fp = h
+	if moved {
+		if what == "" {
+			what = "its fields changed (same encoding)"
 		}
+		put("fingerprint_at_creation", fmt.Sprintf("%016x", e.fp))
+		put("fingerprint_now", fmt.Sprintf("%016x", h))
+		e.fp = h
 	}
 	return what, det
 }
 
 func (l *ledger) report(e *live, shape string, callf func() string, what string, det map[string]interface{}) {
 	call := callf()
+	if det == nil {
+		det = map[string]interface{}{}
+	}
 	t := tn(e.s)
 	det["value"] = renderShort(e.s)
 	det["value_was"] = e.how
@@ -660,7 +659,8 @@ func (m *mon) noise(nz *vlib.Rand, n int, near *spec) []held {
 			g.small = true
 		}
 		if nz.Chance(1, 8) {
-			g.nan = true
+			// NaN payloads, in leaves of ONE type per value (the type the finding key names)
+			g.nanType = []byte{cFloat, cDouble, cFltArr, cDSum}[nz.Intn(4)]
 		}
 		var s *spec
 		switch k := nz.Intn(3); {
